@@ -27,6 +27,16 @@ type c09Case struct {
 	// Cks: further files (by index) that carry the directive. A first run starts at the LAST checkpoint
 	// of the directory; the files in front of it (earlier checkpoints included) are never executed.
 	Cks []int `json:"checkpoint_files,omitempty"`
+	// Vers: the version of each file (default "1", "2", ...), given in the order the directory lists them
+	// (byte order of the names): e.g. ["10", "2"] - versions of different width
+	Vers []string `json:"versions,omitempty"`
+}
+
+func (c *c09Case) ver(i int) string {
+	if i < len(c.Vers) {
+		return c.Vers[i]
+	}
+	return fmt.Sprint(i + 1)
 }
 
 // isCk reports whether file i carries the checkpoint directive; first is the file a first run starts at.
@@ -70,7 +80,7 @@ func (c *c09Case) dir() ([]dirFile, []string) {
 			}
 			b.WriteString(s + "\n")
 		}
-		d = append(d, dirFile{fmt.Sprintf("%d_f%d.sql", i+1, i+1), b.String()})
+		d = append(d, dirFile{fmt.Sprintf("%s_f%d.sql", c.ver(i), i+1), b.String()})
 	}
 	return d, flat
 }
@@ -173,9 +183,12 @@ func c09Monitor(c *c09Case, at []AttemptOut) (bool, string, string) {
 		}
 		recorded = 0
 		for _, r := range a.Revs {
-			var fi int
-			fmt.Sscanf(r.V, "%d", &fi)
-			fi--
+			fi := -1
+			for k := range c.Shape {
+				if c.ver(k) == r.V {
+					fi = k
+				}
+			}
 			if fi < 0 || fi >= len(c.Shape) {
 				return false, "unknown-revision", r.V
 			}
@@ -303,6 +316,19 @@ func runC09(e *Env) error {
 				cases = append(cases, cc)
 			}
 		}
+		// versions of different width (the directory lists "10" before "2"): single-fault schedules
+		for i := 0; i < nplain; i++ {
+			c := cases[i]
+			if len(c.Shape) < 2 || len(c.Faults) > 3 || c.Ck {
+				continue
+			}
+			cc := c
+			vs := [][]string{{"10", "2"}, {"10", "2", "3"}, {"10", "11", "2"}, {"100", "20", "3"}}[i%4]
+			if len(vs) >= len(c.Shape) {
+				cc.Vers = vs[:len(c.Shape)]
+				cases = append(cases, cc)
+			}
+		}
 		// files without statements (comments only) at every position, single-fault schedules
 		if !e.Thorough() {
 			for _, sh := range c09Shapes(3, 2, 0) {
@@ -322,7 +348,7 @@ func runC09(e *Env) error {
 			}
 		}
 		e.Res.Exhaustive = true
-		e.Res.Rule = fmt.Sprintf("exhaustive: directory shapes of 1..%d files x %d..%d statements each x {no fault, every single failing operation (statement or revision write), statement+deferred-write double fault, every ordered pair of faults in two successive runs} followed by two clean runs; the same on directories whose first file is a checkpoint; single-fault schedules on every other placement of checkpoint files (first run starts at the last one) and on directories holding statement-less files; non-trivial = at least one fault fired; distinct by (shape, schedule)", mf, min, ms)
+		e.Res.Rule = fmt.Sprintf("exhaustive: directory shapes of 1..%d files x %d..%d statements each x {no fault, every single failing operation (statement or revision write), statement+deferred-write double fault, every ordered pair of faults in two successive runs} followed by two clean runs; the same on directories whose first file is a checkpoint; single-fault schedules on every other placement of checkpoint files (first run starts at the last one) on directories holding statement-less files and on directories whose versions have different widths (\"10\" is listed before \"2\"); non-trivial = at least one fault fired; distinct by (shape, schedule)", mf, min, ms)
 	}
 	parallel(e.Workers, len(cases), func(i int) {
 		c := cases[i]
